@@ -75,6 +75,15 @@ Types == << Struct(<<Field(A_, Prim("string")), Field(Id, Prim("int")), Field(AE
                                         Field(Rel(<<Step("attribute", T_name("", <<"x">>))>>), Slice(Prim("string"))),
                                         Field(Rel(<<Step("attribute", T_name("", <<"n","o">>))>>), Prim("bool")),
                                         Field(Rel(<<Step("attribute", T_name("p", <<"x">>))>>), Prim("bool"))>>))>>),
+            Slice(Struct(<<Field(Call(<<"p","o","s","i","t","i","o","n">>, <<>>), Prim("int")), Field(Call(<<"l","a","s","t">>, <<>>), Prim("int")), Field(Rel(<<Self>>), Prim("string"))>>)),
+            Struct(<<Field(A_, Slice(Struct(<<Field(Call(<<"l","a","s","t">>, <<>>), Prim("int"))>>)))>>),
+            \* embedded members: tagged (its inner tags are evaluated at the node ITS tag selects: child::d is empty from r, 3 4 from c),
+            \* untagged by value (left alone, inner tags and all), an untagged nil *T (left nil), and the same inside slice elements
+            Struct(<<Embedded(Cc, Struct(<<Field(D_, Slice(Prim("int"))), Field(Rel(<<Step("child", T_any)>>), Prim("string")), Untagged(Prim("string"))>>)), Field(Id, Prim("int"))>>),
+            Struct(<<Field(Id, Prim("int")), EmbeddedUntagged(Struct(<<Field(A_, Prim("string")), Field(Id, Prim("int"))>>))>>),
+            Struct(<<EmbeddedUntagged(Ptr(Struct(<<Field(A_, Prim("string"))>>))), Field(A_, Prim("string"))>>),
+            Struct(<<Embedded(Cc, Ptr(Struct(<<Field(D_, Prim("int")), Field(CountA, Prim("int"))>>))), Field(CountA, Prim("int"))>>),
+            Slice(Struct(<<Embedded(Rel(<<Step("child", T_any)>>), Struct(<<Field(Rel(<<Self>>), Prim("string"))>>)), Field(Rel(<<Self>>), Prim("string"))>>)),
             Bound2, Struct(<<Field(Cc, Bound2)>>), Slice(Struct(<<Field(Rel(<<Self>>), Ptr(Bound2))>>)),
             Ptr(Struct(<<Field(A_, Prim("string"))>>)), Ptr(Ptr(Struct(<<Field(Id, Prim("int32"))>>))),
             Slice(Prim("string")), Slice(Prim("int")), Slice(Prim("float32")), Slice(Prim("bool")), Slice(Ptr(Prim("string"))),
